@@ -4,7 +4,7 @@
    any worker), ClearDynsamplers (reload) and membership changes with or without a notification.
    k_ucs / k_goal are the UseClusterSize flag and GoalThroughputPerSec of the definition an
    instance was created from (the registry key holds the whole configuration). *)
-From Refinery Require Import Lib.Base Model.TraceKey Model.Registry Proofs.Registry.
+From Refinery Require Import Lib.Base Lib.Strs_samp Model.Registry Proofs.Registry.
 From Refinery Require Gen.GenC12 Gen.GenC13.
 
 Theorem C13_source_shape :
